@@ -5,9 +5,10 @@ U30 = 1073741824
 
 OPQ_MODELS = {
     'datetime': {'year': 'int', 'month': 'int', 'day': 'int', 'hour': 'int', 'minute': 'int', 'second': 'int', 'microsecond': 'int',
-                 'astimezone': 'method', 'replace': 'method', 'tzinfo': 'opq:tzinfo', 'utcoffset': 'method:opq:timedelta',
+                 'astimezone': 'method', 'replace': 'method', 'utctimetuple': 'method', 'timetuple': 'method', 'tzinfo': 'opq:tzinfo', 'utcoffset': 'method:opq:timedelta',
                  '__isinstance__': {'datetime': True, 'Number': False, 'numbers.Number': False, 'str': False}},
     'tzinfo': {'__isinstance__': {}}, 'timedelta': {'__isinstance__': {}},
+    'timetuple': {'tm_year': 'int', 'tm_mon': 'int', 'tm_mday': 'int', 'tm_hour': 'int', 'tm_min': 'int', 'tm_sec': 'int', '__isinstance__': {}},
     'float': {'__isinstance__': {'float': True, 'Number': True, 'numbers.Number': True}, 'is_integer': 'method:bool'},
 }
 
